@@ -14,80 +14,80 @@ def sweep(id, family='R', **kw):
 CHECKS = {
  'C01': dict(
     rule="generated pairs of finite raw values (independent and result-targeted) x {+,-,+=,-=}, 17 inlined call shapes, and generated programs with compile-time constant operands, each evaluated on every build configuration (8 quick / 32 thorough: GCC and Clang, -O0..-O3, c++17/20/2b); non-trivial = the exact result leaves [lowest,max] or lies within 2^17 of the limit; distinctness = 64-bit hash of (clause, arguments)",
-    clauses=[rc('C01.addsub', 4000000, 320000000), rc('C01.shape', 4000000, 320000000), rc('C01.const', 3000000, 240000000, kprog=True), rc('C01.expr', 3000000, 240000000, kprog=True), sweep('C01.grid')],
+    clauses=[rc('C01.addsub', 8000000, 320000000), rc('C01.shape', 8000000, 320000000), rc('C01.const', 6000000, 240000000, kprog=True), rc('C01.expr', 6000000, 240000000, kprog=True), sweep('C01.grid')],
     floors={'C01.addsub': {'overflow': 0.10, 'at-boundary+-3': 0.01}, 'C01.shape': {'overflow': 0.10}, 'C01.const': {'overflow': 0.10}, 'C01.expr': {'overflow': 0.05}}),
 
  'C02': dict(
     rule="generated (a,b) pairs for fixed*fixed (independent, product-targeted at +-2^63 / +-MAXF*2^16, complementary bit lengths) and (a,n) for every integral type in both operand orders and *=; evaluated on every build configuration; non-trivial = |raw product| >= 2^62 (fixed*fixed) or product out of range / >= 2^56 (scalar)",
-    clauses=[rc('C02.mulff', 4000000, 240000000), rc('C02.mulint', 4000000, 240000000), sweep('C02.grid')],
+    clauses=[rc('C02.mulff', 8000000, 240000000), rc('C02.mulint', 8000000, 240000000), sweep('C02.grid')],
     floors={'C02.mulff': {'P-not-in-int64': 0.20, 'P-fits-int64-and>=2^56': 0.10}, 'C02.mulint': {'product-outside-range': 0.10}}),
  'C03': dict(
     rule="generated (a,b) pairs for fixed/fixed (zero and tiny divisors, dividends -k*2^47, the 2^47 limit, quotient-first) and (a,n) for every integral divisor type; non-trivial = |a| >= 2^46, |b| <= 2 raw, |quotient| >= 2^46, or scalar n in {0,+-1} / |n| >= 2^31; a call that does not return is a violation",
-    clauses=[rc('C03.divff', 4000000, 240000000), rc('C03.divint', 4000000, 240000000), sweep('C03.grid')],
+    clauses=[rc('C03.divff', 8000000, 240000000), rc('C03.divint', 8000000, 240000000), sweep('C03.grid')],
     floors={'C03.divff': {'zero-divisor': 0.005, '|a|>=2^47': 0.15}, 'C03.divint': {'zero-divisor': 0.02}}),
  'C04': dict(
     rule="every integral type: generated n (type classes and limits) through five conversion spellings, generated finite x through three fixed->T spellings, and an enumeration of all int8/uint8/int16/uint16 values (int32/uint32 strided quick, complete thorough); non-trivial = n out of range or within 2^16 of +-(2^31-1), floor(x) not representable in T or at a limit, negative fractions",
-    clauses=[rc('C04.fromint', 3000000, 160000000), rc('C04.toint', 3000000, 160000000), sweep('C04.sweep')],
+    clauses=[rc('C04.fromint', 6000000, 160000000), rc('C04.toint', 6000000, 160000000), sweep('C04.sweep')],
     floors={'C04.fromint': {'out-of-range->NaN': 0.08}, 'C04.toint': {'k-not-representable->0': 0.20}}),
  'C05': dict(
     rule="float and double bit patterns (exponent-uniform, specials, ties) through three conversion spellings, finite raw x through fixed->float/double and the double round trip, and an enumeration of float bit patterns (strided quick, all 2^32 thorough); non-trivial = non-finite / out of range, inexact, exact tie, |v| >= 2^30, float rounding needed, round-trip band",
-    clauses=[rc('C05.f32', 3000000, 160000000), rc('C05.f64', 4000000, 100000000), rc('C05.tofp', 3000000, 240000000), sweep('C05.f32sweep')],
+    clauses=[rc('C05.f32', 6000000, 160000000), rc('C05.f64', 8000000, 100000000), rc('C05.tofp', 6000000, 240000000), sweep('C05.f32sweep')],
     floors={'C05.f64': {'inexact': 0.30, 'exact-tie': 0.01}, 'C05.f32': {'inexact': 0.10}}),
  'C06': dict(
     rule="pairs of raw values incl. both NaN sentinels (equal, adjacent, mirrored) x six comparisons; single values for isnan / negation / abs; non-trivial = a NaN or +-MAXF operand, |a-b| <= 1, |x| >= 2^62",
-    clauses=[rc('C06.cmp', 6000000, 480000000), rc('C06.unary', 4000000, 320000000), sweep('C06.grid')],
+    clauses=[rc('C06.cmp', 12000000, 480000000), rc('C06.unary', 8000000, 320000000), sweep('C06.grid')],
     floors={'C06.cmp': {'NaN-or-limit-operand': 0.10, '|a-b|<=1': 0.10}, 'C06.unary': {'NaN': 0.05}}),
  'C15': dict(
     rule="finite raw x with |x| < 2^47-1, one third integer-valued; floor and ceil compared with the unique values the bracketing inequalities determine, plus ceil(x) == -floor(-x); non-trivial = integer-valued, within 2 raw of an integer, |raw| >= 2^62",
-    clauses=[rc('C15.floorceil', 10000000, 800000000)],
+    clauses=[rc('C15.floorceil', 20000000, 800000000)],
     floors={'C15.floorceil': {'integer-valued': 0.25}}),
  'C16': dict(
     rule="(finite raw a, t) for t of every integral type, float and double x four operators x operand orders and compound assignments; relation to the promoted computation on the same build, exact scalar model for integer-exact forms, host IEEE for double; non-trivial = |t| >= 2^31, unsigned t >= 2^63, non-integral float, non-finite double, mirrored non-commutative forms",
-    clauses=[rc('C16.int', 4000000, 240000000), rc('C16.f32', 2000000, 120000000), rc('C16.f64', 2000000, 120000000)],
+    clauses=[rc('C16.int', 8000000, 240000000), rc('C16.f32', 4000000, 120000000), rc('C16.f64', 4000000, 120000000)],
     floors={'C16.int': {'t-op-a': 0.2, 'a-op=-t': 0.2}}),
  'C17': dict(
     rule="triples of finite raw values and integers per algebraic law (ten laws), and operation histories of length 1..24 over one accumulator compared step by step with the exact model; preconditions are decided on the exact model, never on library outputs; non-trivial = an intermediate within 2^17 of +-MAXF or beyond, large n, long histories with *n../n",
-    clauses=[rc('C17.laws', 4000000, 240000000), rc('C17.hist', 1500000, 10000000)],
+    clauses=[rc('C17.laws', 8000000, 240000000), rc('C17.hist', 3000000, 10000000)],
     floors={'C17.laws': {'precondition-true': 0.40}, 'C17.hist': {'model-reaches-NaN': 0.15, 'all-finite': 0.15}}),
  'C18': dict(
     rule="(finite raw x, count in [INT_MIN,63]) for both shifts, a quarter of the cases straddling the range limit; pairs of raw values for &; non-trivial = negative count, count in {0,62,63}, negative x, x*2^r out of range, negative & operand",
-    clauses=[rc('C18.shift', 6000000, 480000000), rc('C18.and', 3000000, 240000000), sweep('C18.gridshift'), sweep('C18.gridand')],
+    clauses=[rc('C18.shift', 12000000, 480000000), rc('C18.and', 6000000, 240000000), sweep('C18.gridshift'), sweep('C18.gridand')],
     floors={'C18.shift': {'negative-count': 0.1, 'shl-out-of-range': 0.1}}),
 
  'C09': dict(
     rule="every raw x in [-2pi, 2pi] for sin and cos against long-double libm with the property's own bound, plus generated (x,k) for exact periodicity; non-trivial = r > 1.2, |x| > pi/2, k != 0",
-    clauses=[sweep('C09.acc'), rc('C09.period', 20000000, 800000000)],
+    clauses=[sweep('C09.acc'), rc('C09.period', 40000000, 800000000)],
     floors={'C09.period': {'|k|>4': 0.5}}),
  'C10': dict(
     rule="every raw x in [-pi, pi] for tan against long-double libm, plus generated x up to 62 bits for oddness, period and the pole set; non-trivial = reciprocal branch, beyond pi/2, near a pole, reduction executed",
-    clauses=[sweep('C10.acc'), rc('C10.rel', 20000000, 800000000)],
+    clauses=[sweep('C10.acc'), rc('C10.rel', 40000000, 800000000)],
     floors={'C10.rel': {'at-pole': 0.05, 'reduction-executed': 0.15}}),
  'C11': dict(
     rule="atan: exhaustive low range + lattice per bit length to 47 + segment boundaries; generated ordered pairs for monotonicity; generated (y,x) with independent bit lengths for atan2; non-trivial = |x| > 39/16, segment boundaries, |raw| >= 2^29, adjacent pairs, axis cases, |log2|y/x|| > 13",
-    clauses=[sweep('C11.atan'), rc('C11.mono', 10000000, 400000000), rc('C11.atan2', 10000000, 400000000), sweep('C11.grid')],
+    clauses=[sweep('C11.atan'), rc('C11.mono', 20000000, 400000000), rc('C11.atan2', 20000000, 400000000), sweep('C11.grid')],
     floors={'C11.atan2': {'axis': 0.05, '|log2|y/x||>13': 0.3}}),
  'C12': dict(
     rule="every raw x in [-1, 1] under both square-root algorithms, plus generated x outside; non-trivial = |x| > 0.6, |x| > 0.99, at the switch, just outside or huge",
-    clauses=[sweep('C12.in'), rc('C12.out', 3000000, 160000000)], floors={}),
+    clauses=[sweep('C12.in'), rc('C12.out', 6000000, 160000000)], floors={}),
  'C13': dict(
     rule="sqrt through sqrt(), detail::sqrt_abacus and detail::sqrt_std_math: exhaustive low range, lattice per bit length to 47, perfect squares, generated negatives; integer-only oracle; non-trivial = raw >= 2^22, top binade, negative",
-    clauses=[sweep('C13.sqrt'), rc('C13.sqrtrc', 5000000, 240000000)], floors={'C13.sqrtrc': {'top-binade[2^46,2^47)': 0.01, 'negative': 0.05}}),
+    clauses=[sweep('C13.sqrt'), rc('C13.sqrtrc', 10000000, 240000000)], floors={'C13.sqrtrc': {'top-binade[2^46,2^47)': 0.01, 'negative': 0.05}}),
  'C14': dict(
     rule="generated pairs (a,b) below 2^47 with planted normalisation thresholds, under both square-root algorithms; non-trivial = max >= 2^29, min < 2^16, threshold +- 8",
-    clauses=[rc('C14.hypot', 15000000, 640000000), sweep('C14.grid')],
+    clauses=[rc('C14.hypot', 30000000, 640000000), sweep('C14.grid')],
     floors={'C14.hypot': {'branch:hi>=2^30(shift-right)': 0.15, 'branch:lo<2^16(shift-left)': 0.15, 'branch:direct': 0.10, 'threshold+-8': 0.03}}),
  'C19': dict(
     rule="all table entries; int32 degrees (generated + enumerated) for the *_angle_aprox functions; sqrt_aprox and atan_index_aprox over exhaustive low ranges, lattices and table-entry neighbourhoods; non-trivial = negative / > 360 degrees, binade edges, large arguments, every table entry",
-    clauses=[sweep('C19.tables'), rc('C19.angle', 5000000, 160000000), sweep('C19.anglesweep'), sweep('C19.sqrt_aprox'), sweep('C19.atan_index')], floors={'C19.angle': {'negative-degrees': 0.2}}),
+    clauses=[sweep('C19.tables'), rc('C19.angle', 10000000, 160000000), sweep('C19.anglesweep'), sweep('C19.sqrt_aprox'), sweep('C19.atan_index')], floors={'C19.angle': {'negative-degrees': 0.2}}),
  'C20': dict(
     rule="angle_to_radians<T> generated and enumerated per integral type; sin/cos/tan_angle for every integer d in [-360,360] and every argument type able to carry d; non-trivial = outside [0,360], 8-bit types beyond 104, negative d, d in (135,180) u (315,360)",
-    clauses=[rc('C20.a2r', 3000000, 160000000), sweep('C20.a2rsweep'), sweep('C20.angle')], floors={'C20.a2r': {'outside[0,360]->NaN': 0.2}}),
+    clauses=[rc('C20.a2r', 6000000, 160000000), sweep('C20.a2rsweep'), sweep('C20.angle')], floors={'C20.a2r': {'outside[0,360]->NaN': 0.2}}),
  'C07': dict(
     rule="(entry point, arguments) over the whole inventory on sanitized builds with harness-owned UBSan handlers, the libstdc++ assertion hook and signal recovery; identity of a finding = (kind, file, line)",
-    clauses=[rc('C07.entry', 30000000, 100000000, family='S'), rc('C07.trap', 10000000, 50000000, family='R')], floors={'C07.entry': {'@nontrivial': 0.4}}),
+    clauses=[rc('C07.entry', 60000000, 100000000, family='S'), rc('C07.trap', 20000000, 50000000, family='R')], floors={'C07.entry': {'@nontrivial': 0.4}}),
  'C08': dict(
     rule="(entry point, in-domain arguments) over the whole inventory, bit-identical results across all build configurations (same sqrt algorithm group)",
-    clauses=[rc('C08.diff', 20000000, 400000000), rc('C08.prog', 4000000, 200000000, kprog=True), sweep('C08.consts')], floors={}),
+    clauses=[rc('C08.diff', 40000000, 400000000), rc('C08.prog', 8000000, 200000000, kprog=True), sweep('C08.consts')], floors={}),
 }
 
 # ----------------------------------------------------------------------------- engine E4: constant evaluation
@@ -307,14 +307,14 @@ def make_fuzz_engine(clauses, quick_runs, thorough_runs, quick_procs=8, thorough
         return res
     return engine
 FUZZ_PLAN = {   # property: (clauses, quick runs per process, thorough runs per process)
- 'C01': (['C01.addsub', 'C01.shape'], 400000, 8000000), 'C02': (['C02.mulff', 'C02.mulint'], 400000, 8000000),
- 'C03': (['C03.divff', 'C03.divint'], 300000, 8000000), 'C04': (['C04.fromint', 'C04.toint'], 200000, 4000000),
- 'C05': (['C05.f32', 'C05.f64', 'C05.tofp'], 300000, 6000000), 'C06': (['C06.cmp', 'C06.unary'], 400000, 6000000),
- 'C07': (['C07.entry'], 60000, 1500000), 'C09': (['C09.period'], 300000, 6000000), 'C10': (['C10.rel'], 300000, 6000000),
- 'C11': (['C11.atan2', 'C11.mono'], 300000, 6000000), 'C12': (['C12.out'], 200000, 3000000), 'C13': (['C13.sqrtrc'], 300000, 6000000),
- 'C14': (['C14.hypot'], 300000, 8000000), 'C15': (['C15.floorceil'], 400000, 6000000), 'C16': (['C16.int', 'C16.f32', 'C16.f64'], 100000, 2000000),
- 'C17': (['C17.laws', 'C17.hist'], 200000, 4000000), 'C18': (['C18.shift', 'C18.and'], 400000, 6000000), 'C19': (['C19.angle'], 300000, 4000000),
- 'C20': (['C20.a2r'], 200000, 3000000),
+ 'C01': (['C01.addsub', 'C01.shape'], 800000, 8000000), 'C02': (['C02.mulff', 'C02.mulint'], 800000, 8000000),
+ 'C03': (['C03.divff', 'C03.divint'], 600000, 8000000), 'C04': (['C04.fromint', 'C04.toint'], 400000, 4000000),
+ 'C05': (['C05.f32', 'C05.f64', 'C05.tofp'], 600000, 6000000), 'C06': (['C06.cmp', 'C06.unary'], 800000, 6000000),
+ 'C07': (['C07.entry'], 120000, 1500000), 'C09': (['C09.period'], 600000, 6000000), 'C10': (['C10.rel'], 600000, 6000000),
+ 'C11': (['C11.atan2', 'C11.mono'], 600000, 6000000), 'C12': (['C12.out'], 400000, 3000000), 'C13': (['C13.sqrtrc'], 600000, 6000000),
+ 'C14': (['C14.hypot'], 600000, 8000000), 'C15': (['C15.floorceil'], 800000, 6000000), 'C16': (['C16.int', 'C16.f32', 'C16.f64'], 200000, 2000000),
+ 'C17': (['C17.laws', 'C17.hist'], 400000, 4000000), 'C18': (['C18.shift', 'C18.and'], 800000, 6000000), 'C19': (['C19.angle'], 600000, 4000000),
+ 'C20': (['C20.a2r'], 400000, 3000000),
 }
 for _p, (_cl, _q, _t) in FUZZ_PLAN.items():
     CHECKS[_p].setdefault('extra', []).append(make_fuzz_engine(_cl, _q, _t))
